@@ -12,7 +12,15 @@ def wrapper_exc(e):
 
     if isinstance(e, SymTypeError):
         return True
-    return isinstance(e, TypeError) and any(w in str(e) for w in ("SymNum", "SymBool", "SegStr", "Dual"))
+    msg = str(e)
+    if isinstance(e, TypeError) and any(w in msg for w in ("SymNum", "SymBool", "SegStr", "Dual")):
+        return True
+    # numpy refusing object arrays of symbolic values where it needs machine numbers / booleans (masks, indices, typed ufunc loops)
+    numpy_object = ("only integer scalar arrays can be converted to a scalar index", "arrays used as indices must be of integer",
+                    "loop of ufunc does not support argument", "did not contain a loop with signature matching types",
+                    "Cannot cast ufunc", "cannot be interpreted as an integer", "setting an array element with a sequence",
+                    "The truth value of an array", "object arrays are not supported", "must be real number, not")
+    return isinstance(e, (TypeError, ValueError, IndexError)) and any(w in msg for w in numpy_object)
 
 
 def eq_term(a, b):
